@@ -43,7 +43,9 @@ def splitType (t : String) : String × Option String :=
 /-- `xml_name_to_rust_name` -/
 def xmlNameToRustName (n : String) : String :=
   let r := toPascalCase n
-  if r == "Self" then "Self_" else r
+  match r.toList with
+  | [] => "Unnamed_"
+  | c :: _ => if isDigitA c then "_" ++ r else if r == "Self" then "Self_" else r
 
 /-- `rename_keywords` over the generated table -/
 def renameKeywords (n : String) : String :=
@@ -51,7 +53,11 @@ def renameKeywords (n : String) : String :=
   | some kv => kv.2
   | none => n
 
-def asFieldName (xmlName : String) : String := renameKeywords (toSnakeCase xmlName)
+def asFieldName (xmlName : String) : String :=
+  let s := toSnakeCase xmlName
+  match s.toList with
+  | [] => "_unnamed"
+  | c :: _ => if isDigitA c then "_" ++ s else renameKeywords s
 
 /-- `may_repeat` -/
 def mayRepeat : Option String → Bool
@@ -362,7 +368,7 @@ def fieldFromNode (node : XNode) (ctx : Ctx) : Nat → NM Field
     match node.attr? "ref" with
     | some refName =>
       let (xmlName, nsRef) := splitType refName
-      let rustName := renameKeywords (toSnakeCase xmlName)
+      let rustName := asFieldName xmlName
       if refName.startsWith "xml" then
         return { xmlName := xmlName, rustName := rustName, rustType := .string, isOptional := occ.isOptional,
                  isVec := occ.isVec, tns := none, isAttribute := occ.isAttribute, isChoice := occ.isChoice,
@@ -383,7 +389,7 @@ def fieldFromNode (node : XNode) (ctx : Ctx) : Nat → NM Field
                isChoice := occ.isChoice, isAny := false }
     | none =>
       let xmlName ← liftOpt (node.attr? "name") .attributeMissing
-      let rustName := renameKeywords (toSnakeCase xmlName)
+      let rustName := asFieldName xmlName
       let d ← getDoc
       let rustType := match node.attr? "type" with
         | some t => asRustType d t
